@@ -21,10 +21,12 @@ release), `restart` (process stop) and `resume` (`_on_server_start`).
   reloading sends of events nobody accepts — ever processes the lost tick, starts a worker or ends
   the run; the handler stays `running` forever (`C14_retry_lost_forever`,
   `C14_waiter_timeout_lost_forever`).
-* `C14_partial`: if no retry and no waiter timeout is pending when the run leaves memory, the
-  reload loses no timer (both heaps hold no such timer), and the reloaded control loop is exactly
-  `Context.from_dict(ctx.to_dict())` of the state rebuilt from the persisted ticks, restarted:
-  its state is `rewind (roundtrip (replay log))`, its buffer the re-pings of that state.
+* `C14_partial`: for every schedule of a run's first control loop after which no retry and no waiter
+  timeout is pending (policy independent of elapsed time, no waiter requirements in the log): when
+  the run leaves memory, reloading it at *any* clock yields exactly the live reducer state written
+  by `to_serialized`, read back and restarted (`Runner.init (roundtrip live.st)`), remembers no exit
+  command, and holds the same retry / waiter timers as the live heap: none.  Rests on the
+  clock-erasure simulation of the whole reducer (`WfProofs/TimersErase.lean`).
 -/
 set_option linter.unusedVariables false
 open Engine
@@ -119,7 +121,7 @@ theorem tiW : TimeIndep polW := fun _ _ _ _ _ => rfl
 /-- the persisted log of the retry witness replays to: running, nothing queued, nothing in
 progress, no waiter — the failed attempt is gone, its retry was only a command; that of the waiter
 witness to: running, nothing queued or in progress, the waiter (unresolved, not timed out) still
-registered.  Checked at clock 0 and carried to every clock by `replayAt_sim`. -/
+registered.  Checked at clock 0 and carried to every clock by `tmReplayAt_sim`. -/
 theorem stuckBaseR : StuckBase srvR polR 9 baseR :=
   { unaccepted := unaccR, noTimeout := rfl, nonempty := by simp [baseR], timeIndep := tiR, replay0 := by decide }
 theorem stuckBaseR0 : StuckBase srvR polR 9 baseR0 :=
@@ -305,7 +307,7 @@ theorem C14_partial (c : SrvCfg) (pol : Policy) (hp : TimeIndep pol) (start : Ev
     let s := Srv.run c pol (Srv.start c start) (racts.map SAct.run)
     ∀ r, s.live = some r →
       s.pendingTimers = [] →
-      r.outcome = none → r.st.isRunning = true → r.log ≠ [] → (∀ p ∈ r.log, p.1.persist = p.1) →
+      r.outcome = none → r.st.isRunning = true → r.log ≠ [] → (∀ p ∈ r.log, p.1.stored = p.1) →
       (s.step c pol cut).live = none →
       ∀ now, ∃ r', reload c pol (s.step c pol cut).persisted now = .ok r' none ∧
         r' = Runner.init c.cfg (roundtrip c.cfg r.st) now none c.timeout ∧
@@ -318,7 +320,7 @@ theorem C14_partial (c : SrvCfg) (pol : Policy) (hp : TimeIndep pol) (start : Ev
       rw [← hl]; exact hlive
     exact Option.some.inj this
   obtain ⟨hp1, hp2, _⟩ := C14.cut_persisted c pol s r hl cut hcut hoff
-  have hpers : s.persisted = r.log.map (fun p => p.1.persist) := by
+  have hpers : s.persisted = r.log.map (fun p => p.1.stored) := by
     simp only [Srv.persisted, hl]
     have : s.store = [] := hstore
     simp [this]
